@@ -656,7 +656,7 @@ def _comp(self, node, fr, kind):
                     elt = self.ev(node.elt, fr)
                 finally:
                     fr.env = env0
-                return Term.of(Atom('comp', kind, elt, ia.args[2]))
+                return Term.of(Atom('comp', kind, elt, ia.args[2], *ia.args[3:]))
         if ia is not None and ia.kind == 'ite' and literal(ia.args[1].single_atom()) and literal(ia.args[2].single_atom()):
             # [f(x) for x in (A if c else B)]  ==  [f(a) ...] if c else [f(b) ...]
             return T.mk_ite(ia.args[0], unrolled(ia.args[1].single_atom().args), unrolled(ia.args[2].single_atom().args))
@@ -687,7 +687,7 @@ def _comp(self, node, fr, kind):
             ia_ = it_.single_atom()
             if ia_ is not None and ia_.kind == 'call' and ia_.args[0] in ('zip', 'enumerate', 'range'):
                 gens = [T.mk_tuple([T.mk_call('range', [self._trip(it_)])])]
-    return Term.of(Atom('comp', kind, elt, tuple(gens)))
+    return Term.of(Atom('comp', kind, elt, tuple(gens), f'C{node.lineno}:{node.col_offset}'))
 
 
 def ex_ListComp(self, node, fr):
